@@ -24,6 +24,11 @@ LINK_thr   :=
 LINK_omp   :=
 LINK_ref   :=
 
+# 'refns': the serial reference build with the library namespaces renamed, so that it can be linked into the same executable
+# as the OpenMP build (C13 compares the two in one process); C wrappers and the extern "C" DREAM files are left out
+NSREN := -DTasGrid=TasGridRef -DTasDREAM=TasDREAMRef -DTasOptimization=TasOptimizationRef -Dtsgsim=tsgsimRef
+FLAGS_refns := -O1 -g $(NSREN)
+TSG_SRC_refns := $(filter-out %WrapC.cpp %tsgDreamState.cpp %tsgDreamLikelyGaussian.cpp, $(TSG_SRC))
 FLAVOURS := asan thr omp ref
 
 objname = $(B)/$(1)/tsg/$(subst /,_,$(patsubst $(REPO)/%.cpp,%,$(2))).o
@@ -42,6 +47,10 @@ $(call objname,$(1),$(2)): $(2) $(B)/config/TasmanianConfig.hpp
 	$(CXX) -std=c++11 $(GUARD) $$(FLAGS_$(1)) $(INC) -MMD -MP -c $$< -o $$@
 endef
 $(foreach f,$(FLAVOURS),$(foreach s,$(TSG_SRC),$(eval $(call OBJ_RULE,$(f),$(s)))))
+$(foreach s,$(TSG_SRC_refns),$(eval $(call OBJ_RULE,refns,$(s))))
+$(B)/refns/libtsg.a: $(foreach s,$(TSG_SRC_refns),$(call objname,refns,$(s)))
+	@rm -f $@
+	@ar rcs $@ $^
 
 $(B)/config/TasmanianConfig.hpp: $(REPO)/Config/TasmanianConfig.in.hpp
 	@mkdir -p $(B)/config
@@ -77,9 +86,15 @@ $(B)/$(2)/$(1): $(B)/$(2)/$(1).o $(B)/$(2)/libtsg.a $(B)/simrt.o $(3)
 endef
 ENGINES_thr := c18 c12
 $(foreach e,$(ENGINES_thr),$(eval $(call ENGINE_RULE_SIM,$(e),thr,)))
+# C13: OpenMP build under the simulated libgomp + renamed serial reference in the same executable
+$(B)/refns/c13ref.o: engines/c13ref.cpp engines/c13_common.hpp $(SIMHDR) $(B)/config/TasmanianConfig.hpp
+	@mkdir -p $(B)/refns
+	$(CXX) -std=c++17 $(GUARD) $(FLAGS_refns) $(INC) -I. -MMD -MP -c engines/c13ref.cpp -o $@
+$(eval $(call ENGINE_RULE_SIM,c13,omp,$(B)/refns/c13ref.o $(B)/refns/libtsg.a))
+$(B)/omp/c13.o: engines/c13_common.hpp
 
 .PHONY: all clean $(addprefix eng-,$(ENGINES_asan))
-all: $(foreach e,$(ENGINES_asan),$(B)/asan/$(e)) $(foreach e,$(ENGINES_thr),$(B)/thr/$(e))
+all: $(foreach e,$(ENGINES_asan),$(B)/asan/$(e)) $(foreach e,$(ENGINES_thr),$(B)/thr/$(e)) $(B)/omp/c13
 clean:
 	rm -rf $(B)
 
